@@ -8,6 +8,12 @@ C16 line-protocol driver.
   adapt|madapt <text>            adapter-wide clauses (totality, determinism, validity): evaluated by
                                  the implementation-side oracle only; the model answers for the
                                  first stage, the lexer                     → `lex:ok:<#tokens>` | `lex:err`
+  hist <file>/<file>/…           a PROCESS adapting several generated files in turn (nothing reset in
+                                 between); file = <ops>~<variant>~<items>, ops = `.` | op,op,…
+                                 op = f:dir | l:dir | b:dir:other | a:dir:other  (`order dir first|last|before|after other`)
+                                                                            → `ok i,j,…|rej|…` one answer per file
+  argidx <b|d> <idx> <n>         `{args[idx]}` (b) / `{args.idx}` (d) inside a snippet imported with the
+                                 n arguments a0 … a(n-1)                    → `val <hex>` | `kept` | `panic`
   perm <text> <seed>             \
   eqv <textA> <textB>             | oracle only, no model answer            → `oracle-only`
   leak <textP> <textT>           /
@@ -19,6 +25,8 @@ C16 line-protocol driver.
 import CaddyModel.C16.Model
 import CaddyModel.C16.Stable
 import CaddyModel.C16.LexProps
+import CaddyModel.C16.History
+import CaddyModel.C16.Args
 
 namespace CaddyModel.C16
 
@@ -93,7 +101,64 @@ def siteItemOK (s : String) : Bool :=
   | [d, _, _, ps], some x => siteShapeOK d (ps != ".") x
   | _, _ => false
 
+/-! `hist` -/
+
+def parseOp (s : String) : Option OrderOp :=
+  match s.splitOn ":" with
+  | ["f", d] => if Gen.defaultDirectiveOrder.contains d then some (.first d) else none
+  | ["l", d] => if Gen.defaultDirectiveOrder.contains d then some (.last d) else none
+  | ["b", d, o] => if Gen.defaultDirectiveOrder.contains d && nameOK o then some (.before d o) else none
+  | ["a", d, o] => if Gen.defaultDirectiveOrder.contains d && nameOK o then some (.after d o) else none
+  | _ => none
+
+def parseOps (s : String) : Option (List OrderOp) :=
+  if s == "." then some [] else (s.splitOn ",").mapM parseOp
+
+def parseHistFile (s : String) : Option CFile :=
+  match s.splitOn "~" with
+  | [ops, variant, items] =>
+    match parseOps ops, canonNat variant, parseItems items with
+    | some o, some _, some its =>
+      if items == "." || (items.splitOn ";").all siteItemOK then some ⟨o, its⟩ else none
+    | _, _, _ => none
+  | _ => none
+
+/-- one file of a history: the model's `adapt` decides acceptance and the order left behind;
+the indices come from the same sort carried out on (index, value) pairs -/
+def answerHistFile (g : List String) (f : CFile) : String :=
+  match (adapt Gen.defaultDirectiveOrder g f).1 with
+  | .rejected => "rej"
+  | .ok sorted =>
+    if (sortRoutes (fun (a b : Nat × RouteVal) => less (applyOps Gen.defaultDirectiveOrder g f.ops).1 a.2 b.2)
+        ((List.range f.routes.length).zip f.routes)).map (·.2) == sorted then
+      answerSort (applyOps Gen.defaultDirectiveOrder g f.ops).1 f.routes
+    else "model-inconsistent"
+
+def answerHist : List String → List CFile → List String
+  | _, [] => []
+  | g, f :: fs => answerHistFile g f :: answerHist (adapt Gen.defaultDirectiveOrder g f).2 fs
+
+/-! `argidx` -/
+
+def idxChar (c : UInt8) : Bool :=
+  (48 ≤ c && c ≤ 57) || c == 43 || c == 45 || (97 ≤ c && c ≤ 122) || c == 95 || c == 46 || c == 58
+
+def argList (n : Nat) : List Bytes := (List.range n).map fun i => [97, (48 + i).toUInt8]
+
+def showArgRes : ArgRes → String
+  | .val a => "val " ++ Hex.encode a
+  | .kept => "kept"
+  | .panic => "panic"
+
 def handle : List String → String
+  | ["hist", files] =>
+    match (files.splitOn "/").mapM parseHistFile with
+    | some fs => "|".intercalate (answerHist Gen.defaultDirectiveOrder fs)
+    | none => "bad-op"
+  | ["argidx", form, idx, n] =>
+    match (if form == "b" then some true else if form == "d" then some false else none), hexField idx, canonNat n with
+    | some br, some i, some k => if k ≤ 6 && i.all idxChar then showArgRes (lookup br i (argList k)) else "bad-op"
+    | _, _, _ => "bad-op"
   | ["order"] => "order " ++ ",".intercalate Gen.defaultDirectiveOrder
   | ["sort", ord, items] =>
     match parseOrder ord, parseItems items with
